@@ -336,7 +336,9 @@ func ruleImportsWriters(c *Ctx) []Obligation {
 					ok = ok && fs[c.ff("defname")] != nil && name == "_" && fs[c.ff("defalias")] != nil && al
 					o.req(ok, fn, construct, w.in.Pos(), "outside the registration function only the anonymous-import entry {name:\"_\", alias:true} may be stored (Anon); found value %s — imports must be added lazily by rendering a reference", a.Desc(mu.Value))
 				case fieldRole == "hints":
-					ok := c.onlyReachedFrom(w.fn, func(f *ssa.Function) bool { return hintSetters[f.Name()] && f.Signature.Recv() != nil && isFileMethod(c, f) }, 3)
+					ok := c.onlyReachedFrom(w.fn, func(f *ssa.Function) bool {
+						return hintSetters[f.Name()] && f.Signature.Recv() != nil && isFileMethod(c, f)
+					}, 3)
 					o.req(ok, fn, construct, w.in.Pos(), "File.hints may only be updated by ImportName / ImportNames / ImportAlias (or an unexported helper called only by them)")
 				}
 			}
